@@ -376,7 +376,7 @@ func runStream(c StreamCase, rec *h.Rec) error {
 	return nil
 }
 
-var propStream = h.NewProp("TestPropStream", h.Budget{Quick: 6000, Thorough: 90000}, genStream, runStream)
+var propStream = h.NewProp("TestPropStream", h.Budget{Quick: 3000, Thorough: 90000}, genStream, runStream)
 
 func TestPropStream(t *testing.T) {
 	recordDiscovery("TestPropStream")
